@@ -8,6 +8,7 @@ NOTES (below) = what had to be strengthened before the check caught the change (
 """
 import json
 import os
+import re
 import shutil
 
 WAVES = [("/tmp/seed", "seed", ""), ("/tmp/seed2", "seed2", "-2"), ("/tmp/seed3", "seed3", "-3")]
@@ -75,7 +76,12 @@ def main():
             if wave == "seed" and not os.path.exists(res_fn):
                 res_fn = f"/tmp/confirm/{pid}.result.json"          # first batch of wave 1 (older file name)
             if not os.path.exists(res_fn) or not os.path.exists(f"{src}/{pid}.patch.diff"):
-                rows.append((pid + suffix, pid, "-", "not confirmed (no result)", ""))
+                why = "not confirmed (no result)"
+                if (wave, pid) == ("seed", "C40"):
+                    why = ("NOT KEPT: the change (command manager captured in a local variable in execute_control_command_from_user) was "
+                           "caught by C40 with two request threads on the tree of that time; the repair 29569b3e (requests take the engine "
+                           "lock) makes it harmless and the patch no longer applies")
+                rows.append((pid + suffix, pid, "-", why, ""))
                 continue
             res = json.load(open(res_fn))
             meta = json.load(open(f"{src}/{pid}.meta.json"))
@@ -112,14 +118,14 @@ def main():
                     "tests": res.get("tests_summary"),
                     "tests_failed_in_the_full_run_then_passed_alone": res.get("failed_first_run", "").split(),
                     "check_exit_code": res.get("check_rc"),
-                    "check_signatures": res.get("check_signatures", "").split(),
+                    "check_signatures": re.findall(r"signature=(\S+)", head_line) or res.get("check_signatures", "").split(),
                 },
                 "check_strengthened_first": NOTES.get((wave, pid)),
                 "to_run_against_repo": f"git -C /repo apply /verif/seeded/{name}/patch.diff && (cd /verif && python -m mc check {other or pid} --tier quick); git -C /repo checkout -- .",
             }
             json.dump(out_meta, open(os.path.join(d, "meta.json"), "w"), indent=1)
             rows.append((name, pid, ", ".join(meta.get("files") or []), (meta.get("summary") or "")[:160],
-                         " ".join(res.get("check_signatures", "").split()[:3])))
+                         " ".join((re.findall(r"signature=(\S+)", head_line) or res.get("check_signatures", "").split())[:3])))
     with open(os.path.join(OUT, "README.md"), "w") as f:
         f.write("# Seeded property-breaking changes\n\n"
                 "Each directory holds `patch.diff` (apply with `git -C /repo apply`, undo with `git -C /repo checkout -- .`), the sub-agent's\n"
